@@ -111,7 +111,7 @@ func c08RunCase(cs c08Case) string {
 	if os.Getenv("VERIF_C08_NOBUDGET") != "" {
 		budget = 1 << 60
 	}
-	evr, err := eng.New(cs.Script, eng.Options{NoOptimize: cs.NoOpt, Budget: budget})
+	evr, err := eng.New(cs.Script, eng.Options{NoOptimize: cs.NoOpt, Budget: budget, TraceCap: 1 << 20})
 	if err != nil {
 		if strings.Contains(err.Error(), eng.ErrPanic.Error()) {
 			return "panic in Prepare: " + err.Error()
@@ -196,7 +196,11 @@ func c08Worker(args []string) {
 	}
 	for i := start; i < len(cases); i++ {
 		fmt.Fprintf(logf, "BEGIN %d\n", i)
+		t0 := time.Now()
 		res := c08RunCase(cases[i])
+		if d := time.Since(t0); d > 2*time.Second {
+			fmt.Fprintf(logf, "SLOW %d %d\n", i, d.Milliseconds())
+		}
 		fmt.Fprintf(logf, "END %d %s\n", i, strings.ReplaceAll(res, "\n", " "))
 	}
 	fmt.Fprintf(logf, "DONE\n")
@@ -355,6 +359,11 @@ func c08(c *ev.Ctx) {
 		}
 	})
 	c.Extra("accepted_and_run", accepted)
+	c.Extra("cases_slower_than_2s", len(c08Slow))
+	if len(c08Slow) > 20 {
+		c08Slow = c08Slow[:20]
+	}
+	c.Extra("slow_cases_sample", c08Slow)
 	if accepted < len(cases)/20 {
 		c.Inconclusive(fmt.Sprintf("only %d of %d cases reached the run-time path", accepted, len(cases)))
 	}
@@ -382,6 +391,11 @@ func c08Class(res string) string {
 	return res
 }
 
+var (
+	c08SlowMu sync.Mutex
+	c08Slow   []string
+)
+
 func c08ParseLog(path string) (done bool, last int, results map[int]string) {
 	results = map[int]string{}
 	last = -1
@@ -406,6 +420,12 @@ func c08ParseLog(path string) (done bool, last int, results map[int]string) {
 				results[idx] = rest[sp+1:]
 			}
 			open = -1
+		case strings.HasPrefix(line, "SLOW "):
+			var idx, ms int
+			fmt.Sscan(line[5:], &idx, &ms)
+			c08SlowMu.Lock()
+			c08Slow = append(c08Slow, fmt.Sprintf("%s#%d: %d ms", filepath.Base(path), idx, ms))
+			c08SlowMu.Unlock()
 		case line == "DONE":
 			done = true
 		}
